@@ -96,6 +96,13 @@ def main():
         rc = 2
     sys.stdout.flush()
     sys.stderr.flush()
+    # nothing of this run outlives it (a leftover child would keep the caller's
+    # pipes open): stuck workers, writers of a mutated library blocked on a lock
+    for pid in descendants(main_pid):
+        try:
+            os.kill(pid, signal.SIGKILL)
+        except OSError:
+            pass
     cleanup()
     os._exit(rc)
 
